@@ -218,6 +218,8 @@ func indexIngest(repo Repo, index *types.Index, conf config.Config, locked bool)
 					types.AnnotReferrerSubject: refSubj.String(),
 				}
 				index.AddDesc(newDesc)
+				// track the adopted response so a later regeneration for the same subject merges it
+				referrerResponse[refSubj.String()] = newDesc
 				mod = true
 			}
 			// if the response cannot be quickly converted, save for later
